@@ -36,8 +36,8 @@ RULE = ('Configurations = (model RDM, n_channel - n_cond, n_part, (n_sim, use_sa
         'design form, noise channel covariance, exact-signal option, signal covariance). Block A: '
         'the squared-Euclidean RDM of EVERY configuration of n_cond points on the grid {0,1,2}^d, d<=2 '
         '(de-duplicated by RDM vector, duplicates counted), each with every n_channel offset, the '
-        'remaining dimensions advanced by a running mixed-radix counter; block B: the full product '
-        'of all dimensions on representative RDMs; block C: every RDM vector over {0,1,2}^m '
+        'remaining dimensions advanced by a running mixed-radix counter; block B: the product '
+        'of all dimensions on representative RDMs (see bounds); block C: every RDM vector over {0,1,2}^m '
         '(embeddable or not) and the inputs outside the preconditions; block D: make_design for all '
         'n_cond<=6 x n_part<=5. For each configuration EVERY combination of menu answers (3 per '
         'numpy.random.uniform call of the library) is enumerated by prefix replay (states = nodes of '
@@ -59,15 +59,34 @@ TOLERANCES = {'rdm (exact-signal construction floors LDL pivots at 1e-15; errors
               'noise scaling': TOL_NOISE, 'same-signal equality': 'bit-exact',
               'fresh-signal difference': '> 1e-6 relative'}
 BOUNDS = {
-    'quick': {'grid': 'n_cond 2..4, d<=2, all configurations', 'n_channel-n_cond': [0, 1, 3],
-              'n_part': [1, 2, 3], 'n_sim': [1, 2], 'signal': [0.5, 1, 2], 'noise': [0, 0.25, 1],
-              'menu': N_MENU, 'deviation_bound': 'none (all draws)',
-              'full_product_representatives': 2, 'alphabet_rdms': '{0,1,2}^1, {0,1,2}^3'},
-    'thorough': {'grid': 'n_cond 2..5, d<=2, all configurations', 'n_channel-n_cond': [0, 1, 3],
-                 'n_part': [1, 2, 3], 'n_sim': [1, 2], 'signal': [0.5, 1, 2], 'noise': [0, 0.25, 1],
-                 'menu': N_MENU, 'deviation_bound': 'none (all draws)',
-                 'full_product_representatives': 5,
-                 'alphabet_rdms': '{0,1,2}^1, {0,1,2}^3, {0,1,2}^6'},
+    'quick': {'grid (block A)': 'n_cond 2..4, d<=2: all 90 + 756 + 6642 configurations = 6 + 55 + 561 distinct '
+                                'RDM vectors, each x 3 n_channel offsets x all draw histories',
+              'n_channel-n_cond': [0, 1, 3], 'n_part': [1, 2, 3], 'n_sim': [1, 2], 'signal': [0.5, 1, 2],
+              'design': ['condition vector of make_design', 'indicator design matrix',
+                         'indicator design matrix, condition order rotated per partition'],
+              'noise': [0, 0.25, 1], 'noise_cov_channel': ['None', 'SPD'], 'menu': N_MENU,
+              'deviation_bound': 'none (all 3^k draw histories, k = number of uniform calls = 2..4)',
+              '(n_sim=2, fresh signal) = 81 histories': 'block A n_cond=4: every 8th RDM (others: running '
+                                                        'counter moves to the next option); blocks B, C: always',
+              'block B': '2 representative RDMs x offsets x n_part x design x (n_sim, same) x noise_cov '
+                         '(full product, signal by running counter)',
+              'block C': 'all RDM vectors over {0,1,2}^1 and {0,1,2}^3; fewer channels / signal covariance / '
+                         'exact option off on the representatives',
+              'make_design': 'n_cond 1..6 x n_part 1..5'},
+    'thorough': {'grid (block A)': 'n_cond 2..5, d<=2: all 90 + 756 + 6642 + 59292 configurations = 6 + 55 + '
+                                   '561 + 5671 distinct RDM vectors, each x 3 n_channel offsets x all draw histories',
+                 'n_channel-n_cond': [0, 1, 3], 'n_part': [1, 2, 3], 'n_sim': [1, 2], 'signal': [0.5, 1, 2],
+                 'design': ['condition vector of make_design', 'indicator design matrix',
+                            'indicator design matrix, condition order rotated per partition'],
+                 'noise': [0, 0.25, 1], 'noise_cov_channel': ['None', 'SPD'], 'menu': N_MENU,
+                 'deviation_bound': 'none (all 3^k draw histories, k = number of uniform calls = 2..4)',
+                 '(n_sim=2, fresh signal) = 81 histories': 'block A n_cond=5 and block C {0,1,2}^6: every 8th '
+                                                           'RDM; everywhere else always',
+                 'block B': '5 representative RDMs x full product of offsets x n_part x design x (n_sim, same) '
+                            'x signal x noise_cov',
+                 'block C': 'all RDM vectors over {0,1,2}^1, {0,1,2}^3, {0,1,2}^6; fewer channels / signal '
+                            'covariance / exact option off on the representatives x design',
+                 'make_design': 'n_cond 1..6 x n_part 1..5'},
 }
 
 SIGNALS = [0.5, 1.0, 2.0]
@@ -78,14 +97,15 @@ OFFS = [0, 1, 3]
 NCOVS = ['none', 'spd']
 RADICES = (len(SIMS), 3, len(SIGNALS), len(DESIGNS), len(NCOVS))      # product 216
 
-# representative point configurations for the full product (block B)
+# representative point configurations for the full product (block B); no configuration is
+# symmetric under a relabelling of its conditions, so a permuted condition order shows
 REPS = {
-    'quick': [[(0, 0), (1, 2), (2, 0)],
-              [(0, 0), (2, 1), (1, 2), (0, 0)]],
+    'quick': [[(0, 0), (1, 0), (2, 2)],
+              [(0, 0), (1, 0), (2, 2), (0, 0)]],
     'thorough': [[(0, 0), (1, 2)],
                  [(0,), (0,), (2,)],
-                 [(0, 0), (1, 2), (2, 0)],
-                 [(0, 0), (2, 1), (1, 2), (0, 0)],
+                 [(0, 0), (1, 0), (2, 2)],
+                 [(0, 0), (1, 0), (2, 2), (0, 0)],
                  [(0, 0), (1, 0), (2, 2), (0, 2)]],
 }
 
